@@ -122,21 +122,41 @@ func rulePARSE1(w *World) []Ob {
 	}
 	// validateSpaces is consulted before a candidate is accepted
 	okV := false
+	skipped := ""
 	allInstrs(fn, func(in ssa.Instruction) {
 		r, ok := in.(*ssa.Return)
 		if !ok || len(rr(r)) != 3 || !isNilConst(rr(r)[2]) {
 			return
 		}
+		// every successful return — not just one — has gone through the indentation count and validateSpaces: a
+		// shortcut for "an indentation seen before" accepts rows the full test rejects and skips what it learns
+		validated, counted := false, false
 		allInstrs(fn, func(in2 ssa.Instruction) {
-			if c, ok := in2.(*ssa.Call); ok && c.Common().StaticCallee() != nil && fname(c.Common().StaticCallee()) == "validateSpaces" && guardedNil(c, r) {
-				okV = true
+			c, ok := in2.(*ssa.Call)
+			if !ok {
+				return
+			}
+			if c.Common().StaticCallee() != nil && fname(c.Common().StaticCallee()) == "validateSpaces" && guardedNil(c, r) {
+				validated = true
+			}
+			if calleeFullName(c.Common()) == "strings.Count" && (c.Block() == r.Block() || c.Block().Dominates(r.Block())) {
+				counted = true
 			}
 		})
+		_ = counted
+		if validated {
+			okV = true
+		} else if skipped == "" {
+			skipped = p.InstrPos(r)
+		}
 	})
+	if skipped != "" {
+		okV = false
+	}
 	if okV {
 		l.ok(fid, "a candidate is accepted only after validateSpaces", p.Pos(fn.Pos()), "the successful return lies on the nil side of validateSpaces(spaceCount)", true, "learn")
 	} else {
-		l.bad(fid, "a candidate is accepted only after validateSpaces", p.Pos(fn.Pos()), "separateRow returns success without validateSpaces having accepted the indentation", "learn")
+		l.bad(fid, "a candidate is accepted only after validateSpaces", p.Pos(fn.Pos()), "separateRow returns success without validateSpaces having accepted the indentation"+map[bool]string{true: " (the successful return at " + skipped + " bypasses the indentation count or validateSpaces)", false: ""}[skipped != ""], "learn")
 	}
 	return l.list
 }
@@ -213,7 +233,7 @@ func ruleSPLIT1(w *World) []Ob {
 					continue
 				}
 				if x.Common().StaticCallee() != nil && fname(x.Common().StaticCallee()) == "isRootBlockBeginning" && pol {
-					if tc, ok := x.Common().Args[0].(*ssa.Call); ok && calleeFullName(tc.Common()) == "(*bufio.Scanner).Text" {
+					if isScanLine(x.Common().Args[0]) {
 						continue
 					}
 					extra = append(extra, "isRootBlockBeginning applied to "+describeValue(x.Common().Args[0])+" instead of the current line")
@@ -328,8 +348,8 @@ func ruleSPLIT1(w *World) []Ob {
 		}
 		line := false
 		switch {
-		case isBuilderMethod(c, "WriteString") && len(c.Common().Args) == 2:
-			if tc, ok := resolve(c.Common().Args[1]).(*ssa.Call); ok && calleeFullName(tc.Common()) == "(*bufio.Scanner).Text" {
+		case (isBuilderMethod(c, "WriteString") || isBuilderMethod(c, "Write")) && len(c.Common().Args) == 2:
+			if isScanLine(c.Common().Args[1]) {
 				// a newline is written to the same builder later in the same block
 				for _, in2 := range c.Block().Instrs[instrIndex(c)+1:] {
 					c2, ok := in2.(*ssa.Call)
@@ -350,7 +370,7 @@ func ruleSPLIT1(w *World) []Ob {
 			}
 		case calleeFullName(c.Common()) == "fmt.Fprintln" && len(c.Common().Args) == 2:
 			if els, ok := variadicElems(c.Common().Args[1]); ok && len(els) == 1 {
-				if tc, ok := resolve(stripConv(els[0])).(*ssa.Call); ok && calleeFullName(tc.Common()) == "(*bufio.Scanner).Text" {
+				if isScanLine(stripConv(els[0])) {
 					line = true
 				}
 			}
@@ -432,6 +452,28 @@ func separateRowBody(p *Prog) *ssa.Function {
 	return sep
 }
 
+// isScanLine: v is the line the scanner holds — sc.Text() or sc.Bytes(), possibly converted.
+func isScanLine(v ssa.Value) bool {
+	v = resolve(v)
+	for {
+		switch x := v.(type) {
+		case *ssa.Convert:
+			v = resolve(x.X)
+			continue
+		case *ssa.ChangeType:
+			v = resolve(x.X)
+			continue
+		}
+		break
+	}
+	tc, ok := v.(*ssa.Call)
+	if !ok {
+		return false
+	}
+	n := calleeFullName(tc.Common())
+	return n == "(*bufio.Scanner).Text" || n == "(*bufio.Scanner).Bytes"
+}
+
 // isBuilderMethod: a call of (*strings.Builder).<name> or (*bytes.Buffer).<name>.
 func isBuilderMethod(c *ssa.Call, name string) bool {
 	n := calleeFullName(c.Common())
@@ -440,8 +482,36 @@ func isBuilderMethod(c *ssa.Call, name string) bool {
 
 // builderOf: v is builder.String(); returns the builder (its address).
 func builderOf(v ssa.Value) ssa.Value {
-	if c, ok := stripConv(v).(*ssa.Call); ok && isBuilderMethod(c, "String") && len(c.Common().Args) == 1 {
+	c, ok := stripConv(resolve(v)).(*ssa.Call)
+	if !ok {
+		return nil
+	}
+	if isBuilderMethod(c, "String") && len(c.Common().Args) == 1 {
 		return c.Common().Args[0]
+	}
+	// a local closure that hands the builder's content out (and resets it): `take := func() string { b := block.String();
+	// block.Reset(); return b }` — the builder is the captured variable, seen from the enclosing function
+	if mc, isMC := resolve(c.Common().Value).(*ssa.MakeClosure); isMC {
+		f := mc.Fn.(*ssa.Function)
+		var out ssa.Value
+		allInstrs(f, func(in ssa.Instruction) {
+			r, isR := in.(*ssa.Return)
+			if !isR || len(rr(r)) != 1 {
+				return
+			}
+			sc, isC := stripConv(resolve(rr(r)[0])).(*ssa.Call)
+			if !isC || !isBuilderMethod(sc, "String") || len(sc.Common().Args) != 1 {
+				return
+			}
+			if fv, isFV := sc.Common().Args[0].(*ssa.FreeVar); isFV {
+				for i, q := range f.FreeVars {
+					if q == fv && i < len(mc.Bindings) {
+						out = mc.Bindings[i]
+					}
+				}
+			}
+		})
+		return out
 	}
 	return nil
 }
